@@ -30,7 +30,7 @@ func (r *Rng) Intn(n int) int {
 	}
 	return int(r.Next() % uint64(n))
 }
-func (r *Rng) Bool() bool { return r.Next()&1 == 1 }
+func (r *Rng) Bool() bool              { return r.Next()&1 == 1 }
 func (r *Rng) Pick(ss []string) string { return ss[r.Intn(len(ss))] }
 
 // ---- case file writer ----
